@@ -81,7 +81,8 @@ def run_case(case):
     # (b) solve_and_simulate == solve -> simulate
     cells = 0
     try:
-        df2 = info["fns"].solve_and_simulate(params_impl(info["P"]), initial_states=init_impl(mj, info["init"]), seed=info["sim_seed"])
+        pd = params_impl(info["P"])     # this very dict object is changed in place further down
+        df2 = info["fns"].solve_and_simulate(pd, initial_states=init_impl(mj, info["init"]), seed=info["sim_seed"])
         df1 = info["df"]
         if list(df1.columns) != list(df2.columns) or len(df1) != len(df2):
             vs.append({"clause": "'solve_and_simulate' returns the same frame as solve then 'simulate'", "detail": f"columns/length differ: {list(df1.columns)} x {len(df1)} vs {list(df2.columns)} x {len(df2)}"})
@@ -95,9 +96,7 @@ def run_case(case):
                     break
         # second call on the same function object after changing a value *in place* in the same params dict
         if not vs:
-            pd = params_impl(info["P"])
             sas = info["fns"].solve_and_simulate
-            _ = sas(pd, initial_states=init_impl(mj, info["init"]), seed=info["sim_seed"])
             new_beta = 0.25 if float(pd["beta"]) != 0.25 else 0.75
             pd["beta"] = new_beta
             df3 = sas(pd, initial_states=init_impl(mj, info["init"]), seed=info["sim_seed"])
